@@ -9,6 +9,7 @@ mod oracle;
 mod props_algo;
 mod props_gen;
 mod props_model;
+mod props_par;
 mod props_path;
 mod props_total;
 mod props_xml;
@@ -71,6 +72,7 @@ fn main() {
         "C04" => props_path::run_c04(&a),
         "C05" => props_path::run_c05(&a),
         "C06" => props_path::run_c06(&a),
+        "C07" => props_par::run_c07(&a),
         "C08" => props_path::run_c08(&a),
         "C09" => props_model::run_c09(&a),
         "C10" => props_algo::run_c10(&a),
